@@ -4,8 +4,9 @@ CONSTANTS
   MaxLines = 4
   LimitN = 5
   MaxFds = 2
+  DeferPop = TRUE
   Guided = TRUE
   TSet = {1, 2, 5, 8, 14, 21, 22}
-INVARIANTS Refines StructOK FreshAfterError BodyBound ContinueRule FilesOrdered AttachRule Witnesses
+INVARIANTS Refines StructOK FreshAfterError BodyBound ContinueRule FilesOrdered AttachRule ParsedQueueOK Witnesses
 PROPERTIES EmptyReadInert
 CHECK_DEADLOCK FALSE
